@@ -30,6 +30,11 @@ CHECKS = {
         "Exploration: for every sentence (all token strings up to 4-5 tokens, rendered with generated layout before, between and after tokens; single-character, multi-character and overlapping lexicons; ws-based and comment LAYOUT grammars) every node of the LR build_tree result and of up to 40-200 forest trees + get_first_tree is checked: integer in-bounds positions, terminal value = input slice, ordered non-overlapping siblings, children inside parents, layout_content+value concatenation reproduces the input, and the positions seen by actions (on the fly and via call_actions) equal the tree's.",
         "Trusted: pv/ref_chart.py for sentence selection. Known finding D17 (GLR packed node keeps the span of its first alternative) relaxes only the three span-relation predicates on GLR trees and only when the disagreeing region consists of layout characters. LR and GLR placements of empty nodes are not compared with each other.",
         "DESIGN.md section 6/C08"),
+    "C14": (
+        "metamorphic PBT (two generated layouts of the same token string must give the same parse / offending-token index) + differential PBT (ws parameter vs equivalent LAYOUT rules)",
+        "Exploration: every token string up to 3-4 tokens (sentences, non-sentences, junk) of every generated grammar is rendered with two independently generated layout patterns (whitespace; line and nested block comments under a LAYOUT rule) and parsed by LR and GLR: acceptance, LR result, the set of position-free GLR trees and the index of the offending token must agree; for ws grammars an equivalent LAYOUT rule (4 formulations) must give identical trees, node positions, layout_content and error positions.",
+        "Trusted: the renderer never changes token boundaries (single-character terminals or forced separators). Messages/tokens_ahead are not compared between ws and LAYOUT parsers.",
+        "DESIGN.md section 6/C14"),
     "C17": (
         "differential PBT: GLR/LR with consume_input=False vs union of reference derivations over all sentence prefixes (Earley prefix ends)",
         "Exploration: every token string up to 4-5 tokens (every sentence followed by every continuation, incl. junk) is parsed with consume_input=False; the set of trees expanded from the GLR forest must equal the union over all sentence prefixes of the reference derivations (each once) and SyntaxError is allowed only when no prefix is a sentence; the LR result must be a derivation of a prefix that is a sentence.",
